@@ -4,7 +4,7 @@
    for every expression tree of any size.  Declarations and statements are decided by the round-trip search. *)
 From Coq Require Import List NArith Bool Arith.
 From Verif Require Import Base.Res Gen.GenTokens Model.Lexer Model.ExprParser Proofs.ExprParserProofs Proofs.ExprInstance.
-From Verif Require Model.StParser Model.StInstance Model.StRender Proofs.StExprProofs Proofs.StStmtProofs Proofs.StInstanceProofs Proofs.StRenderProofs Model.DeclParser Proofs.DeclProofs Proofs.DeclRenderProofs Proofs.LibProofs Model.LibRender Proofs.LibRenderProofs Proofs.LexSpell Proofs.TextRoundTrip.
+From Verif Require Model.StParser Model.StInstance Model.StRender Proofs.StExprProofs Proofs.StStmtProofs Proofs.StInstanceProofs Proofs.StRenderProofs Model.DeclParser Proofs.DeclProofs Proofs.DeclRenderProofs Proofs.LibProofs Model.LibRender Proofs.LibRenderProofs Proofs.LexSpell Proofs.TextRoundTrip Model.Literals Model.TimeRender Proofs.TimeRenderProofs.
 Import ListNotations.
 Close Scope N_scope.
 Open Scope nat_scope.
@@ -146,3 +146,18 @@ Example C10_text_round_trip_example :
   TextRoundTrip.text_ok (StRenderProofs.render_fb [102%N; 98%N] StRenderProofs.ex_stmts) = true /\
   StInstance.parse_fb_text (TextRoundTrip.render_text [102%N; 98%N] StRenderProofs.ex_stmts) = StInstance.OParsed StRenderProofs.ex_stmts.
 Proof. exact TextRoundTrip.text_round_trip_example. Qed.
+
+(* Times of day (TIME_OF_DAY# and the time part of DATE_AND_TIME#): the renderer writes the seconds as two digits, '.', and
+   the microseconds as six digits without trailing zeros (at least two) -- Model/TimeRender.v, the transcription of
+   fraction_of_second and the two format! calls of plc2plc/src/renderer.rs.  For every hour, minute, second and number of
+   microseconds the text is read back (fixed_point, daytime: Model/Literals.v) as exactly that time.  (Before the repair
+   e7233cc the microseconds were padded to two digits, and 12:00:00.005 came back as 12:00:00.5.)  Finer than a microsecond
+   the library keeps more than the renderer writes: recorded finding render-fractional-time-values. *)
+Theorem C10_time_of_day_round_trip : forall h m sec micro : N, (h < 24)%N -> (m < 60)%N -> (sec < 60)%N -> (micro < 1000000)%N ->
+  TimeRender.read_back h m sec micro = Some (h, m, sec, micro * 1000)%N.
+Proof. exact TimeRenderProofs.time_of_day_round_trip. Qed.
+
+Example C10_time_of_day_examples :
+  TimeRender.seconds_text 0 5000 = [48; 48; 46; 48; 48; 53]%N /\ TimeRender.seconds_text 7 0 = [48; 55; 46; 48; 48]%N /\
+  TimeRender.read_back 12 0 0 5000 = Some (12, 0, 0, 5000000)%N.
+Proof. vm_compute. repeat split; reflexivity. Qed.
